@@ -511,7 +511,7 @@ func init() {
 	vfRegister(&vfeng.Check{
 		ID:    "C10",
 		Level: "model_checking",
-		Rule:  "exhaustive products on the real handlers: (strength) 48 RSA (modulus bits x exponent) keys + P-224/256/384/521 + Ed25519 + DSA + X25519 + RSA-PSS OID x all six issuing paths in the encoding each path takes; (malformed) for each valid seed (SSH key line, PEM/base64url PKIX key, session cookie, OIDC code, access token, CLI token, U2F/WebAuthn JSON bodies): every truncation length, three substitutions per byte position, every DER length octet +-1, SSH algorithm-tag x blob cross product and wire-length fields, delivered to every route that parses that input; oracle: signed => strong key, weak/unknown => 4xx, no recovered panic",
+		Rule: "client certificates signed by the role CA and by the operator CA carrying every corrupted address extension of the C11 catalogue (bit lengths 0..48, wrong families, 300 blocks, truncations, byte flips) on the refresh, certgen and profile routes from inside and outside: no panic; " +  "exhaustive products on the real handlers: (strength) 48 RSA (modulus bits x exponent) keys + P-224/256/384/521 + Ed25519 + DSA + X25519 + RSA-PSS OID x all six issuing paths in the encoding each path takes; (malformed) for each valid seed (SSH key line, PEM/base64url PKIX key, session cookie, OIDC code, access token, CLI token, U2F/WebAuthn JSON bodies): every truncation length, three substitutions per byte position, every DER length octet +-1, SSH algorithm-tag x blob cross product and wire-length fields, delivered to every route that parses that input; oracle: signed => strong key, weak/unknown => 4xx, no recovered panic",
 		Assumptions: []string{"RSA public keys with chosen moduli stand for weak keys (the server never needs the private half)", "byte-level mutation is exhaustive for single positions with three substitute values; multi-byte corruptions are out of the bound"},
 		Shards: func(tier string) int { return 16 },
 		Run: func(c *vfeng.Ctx) {
@@ -533,6 +533,39 @@ func init() {
 						c.Violate(key, what, p)
 					} else {
 						c.Class(class, p)
+					}
+				}
+			}
+			// malformed address extensions in client certificates that chain to a trusted CA
+			for _, signer := range []string{"role-ca", "operator-ca"} {
+				for _, cr := range c11Corruptions() {
+					i++
+					if !c.Mine(i) {
+						continue
+					}
+					leaf := c11CorruptCert(w, signer, cr.Value)
+					tlsState := w.vfTLSFor(leaf)
+					for _, path := range []string{refreshRoleRequestingCertPath, certgenPath + vfAutoUser, profilePath} {
+						for _, remote := range []string{vfInsideAddr, c11ProbeOutside} {
+							var req vfReq
+							switch path {
+							case refreshRoleRequestingCertPath:
+								req = vfReq{Method: "POST", Path: path, Form: url.Values{"pubkey": {c11PubB64()}}}
+							case profilePath:
+								req = vfReq{Method: "GET", Path: path}
+							default:
+								req = vfCertgenReq(vfAutoUser, "x509", vfPKIXPem(vfKeys.userEC.Public()), "1h")
+							}
+							req.TLS, req.Remote = tlsState, remote
+							resp := w.Do(req.Build())
+							c.Eval(1)
+							p := c10Point{Part: "cert-extension", Path: path, Seed: signer + ":" + cr.Name, Mut: remote}
+							if resp.Panic != nil {
+								c.Violate("C10|panic|client-certificate-address-extension|"+signer, fmt.Sprintf("client certificate with address extension %s (%x) on %s from %s: panic %v\n%s", cr.Name, cr.Value, path, remote, resp.Panic, c10Trim(resp.PanicStack)), p)
+							} else {
+								c.Class(fmt.Sprintf("cert-extension|%s|%d", signer, resp.Code), p)
+							}
+						}
 					}
 				}
 			}
@@ -634,6 +667,31 @@ func init() {
 					}
 				}
 				return false, "unknown key"
+			}
+			if p.Part == "cert-extension" {
+				signer, name, _ := strings.Cut(p.Seed, ":")
+				for _, cr := range c11Corruptions() {
+					if cr.Name != name {
+						continue
+					}
+					leaf := c11CorruptCert(w, signer, cr.Value)
+					var req vfReq
+					switch p.Path {
+					case refreshRoleRequestingCertPath:
+						req = vfReq{Method: "POST", Path: p.Path, Form: url.Values{"pubkey": {c11PubB64()}}}
+					case profilePath:
+						req = vfReq{Method: "GET", Path: p.Path}
+					default:
+						req = vfCertgenReq(vfAutoUser, "x509", vfPKIXPem(vfKeys.userEC.Public()), "1h")
+					}
+					req.TLS, req.Remote = w.vfTLSFor(leaf), p.Mut
+					resp := w.Do(req.Build())
+					if resp.Panic != nil {
+						return true, fmt.Sprintf("C10|panic|client-certificate-address-extension|%s :: panic %v", signer, resp.Panic)
+					}
+					return false, fmt.Sprintf("status %d", resp.Code)
+				}
+				return false, "unknown corruption"
 			}
 			// malformed: re-enumerate the mutations of that seed and run the named one
 			found, viol, detail := false, false, ""
